@@ -185,6 +185,9 @@ def make_replay(pid, name, ob, res, contract, reg, mod):
         try:
             from .check import load_findings
             job['known_regions'] = [f['region'] for f in load_findings(pid) if f.get('function') == contract.name]
+            import re as _re
+            job['known_region_kinds'] = ['exc' if _re.search(r'/(noexc|raises|noraise):', f.get('obligation', '')) else 'post'
+                                         for f in load_findings(pid) if f.get('function') == contract.name]
         except Exception:
             pass
         sc = scalar_params(contract)
